@@ -54,6 +54,9 @@ func (i *Interp) findIntrinsic(fn *ssa.Function) intrinsic {
 	if f := i.sqlIntrinsic(fn, name); f != nil {
 		return f
 	}
+	if f := i.compressIntrinsic(fn, name); f != nil {
+		return f
+	}
 	if f := i.nativeBridge(fn, name); f != nil {
 		return f
 	}
